@@ -53,9 +53,10 @@ Known(t) ==
          THEN "known:F20:a layer excluded from the search consumes / is added to a tensor that the search can prune"
     ELSE IF KF_CatIntoAdd(a) THEN "known:F21:a channel-concat output reaches a residual add; the masks of its parts are not tied to the other addend"
     ELSE IF KF_NonZeroOp(a) THEN "known:F29:sigmoid (an op of plinio's features-propagating list) maps the exact zeros of a pruned channel to 1/2: the consumer still reads that channel in the masked network, export() removes it"
-    ELSE IF KF_CoupledOp(a) THEN "known:F72:log_softmax over the features axis (an op of plinio's features-propagating list) on a tensor the search can prune: the pruned channels take part in the normalisation of the masked network, export() removes them"
     ELSE IF KF_CatIntoOutput(a) THEN "known:F25:a channel concat feeds the network output; its prunable parts are not frozen, the exported output width changes"
     ELSE IF KF_MixedWidthGroup(a) THEN "known:F24:producers of different widths (conv->flatten and linear) meet in one residual add and share one masker"
+    \* (F72 only changes the computed function: it is a signature for C01 clauses only, and the last one tried)
+    ELSE IF t.props.C01 /\ KF_CoupledOp(a) THEN "known:F72:log_softmax over the features axis (an op of plinio's features-propagating list) on a tensor the search can prune: the pruned channels take part in the normalisation of the masked network, export() removes them"
     ELSE ""
 
 \* (a clause that already carries the signature of a finding of its own, e.g. F26, keeps it)
